@@ -89,15 +89,16 @@ def add_computed_field(*args, resources=None, **kw):
                 resource['schema']['fields'].extend(new_fields)
         yield package.pkg
 
-        for f in fields:
-            target = f['target']
-            if isinstance(target, str):
-                f['target'] = dict(name=target)
+        # (the caller's specifications are left as they are: they may serve another flow)
+        row_fields = [
+            dict(f, target=dict(name=f['target'])) if isinstance(f['target'], str) else f
+            for f in fields
+        ]
 
         for resource in package:
             if not matcher.match(resource.res.name):
                 yield resource
             else:
-                yield process_resource(fields, resource)
+                yield process_resource(row_fields, resource)
 
     return func
